@@ -8,6 +8,8 @@ import Reamber.Props.C05
 #print axioms Reamber.BMS.lineKeys_cover
 #print axioms Reamber.BMS.lineKeys_unique
 #print axioms Reamber.BMS.written_line_denotes
+#print axioms Reamber.BMS.written_objects
+#print axioms Reamber.BMS.pairLane_atoms
 #print axioms Reamber.BMS.classify_rendered
 #print axioms Reamber.BMS.write_positions
 #print axioms Reamber.BMS.written_slot_time
